@@ -425,7 +425,18 @@ class Evaluator:
             if any(f is v_[1] for v_ in _SAFE_STATIC.values()):
                 return f(*[list(a_) if isinstance(a_, GenList) else a_ for a_ in args], **kwargs)
             if f in SAFE_BUILTINS.values() or (hasattr(f, "__self__") and type(f.__self__) in SAFE_METHODS and f.__name__ in SAFE_METHODS[type(f.__self__)]):
-                args = [list(a_) if isinstance(a_, GenList) else a_ for a_ in args]
+                def _callable(v_):
+                    # a function of the interpreted fragment handed to a builtin (sorted / max / min key, map / filter function)
+                    if isinstance(v_, UserFunc):
+                        return lambda *a_, _f=v_: self.call_user(_f, list(a_), {})
+                    if isinstance(v_, tuple) and v_ and v_[0] == "symmethod" and isinstance(v_[1].methods.get(v_[2]), UserFunc):
+                        return lambda *a_, _o=v_[1], _m=v_[1].methods[v_[2]]: self.call_user(_m, [_o, *a_], {})
+                    if isinstance(v_, Host):
+                        return v_.fn
+                    return v_
+
+                args = [list(a_) if isinstance(a_, GenList) else _callable(a_) for a_ in args]
+                kwargs = {k_: _callable(v_) for k_, v_ in kwargs.items()}
                 r = f(*args, **kwargs)
                 if isinstance(r, (range, enumerate, zip, map, filter)) or type(r).__name__ in ("dict_keys", "dict_values", "dict_items", "reversed", "list_reverseiterator"):
                     r = list(r)
